@@ -620,6 +620,160 @@ val new_map : machine -> machine * id0
 
 val box_alloc : conf -> id0 -> machine -> machine
 
+val step_script :
+  (call -> machine -> machine * outcome) -> id0 option -> cmd list -> machine
+  -> machine * outcome
+
+val step_store :
+  (call -> machine -> machine * outcome) -> rloc -> id0 -> machine ->
+  machine * outcome
+
+val step_drop_cc :
+  conf -> prog -> (call -> machine -> machine * outcome) -> id0 -> machine ->
+  machine * outcome
+
+val step_drop_value :
+  conf -> prog -> (call -> machine -> machine * outcome) -> id0 -> machine ->
+  machine * outcome
+
+val step_drop_fields :
+  (call -> machine -> machine * outcome) -> id0 -> nat -> machine ->
+  machine * outcome
+
+val step_drop_map_slots :
+  (call -> machine -> machine * outcome) -> id0 -> nat -> machine ->
+  machine * outcome
+
+val step_clean_run :
+  conf -> prog -> (call -> machine -> machine * outcome) -> id0 -> nat -> nat
+  -> machine -> machine * outcome
+
+val step_trigger :
+  conf -> (call -> machine -> machine * outcome) -> machine ->
+  machine * outcome
+
+val step_collect_cycles :
+  conf -> (call -> machine -> machine * outcome) -> machine ->
+  machine * outcome
+
+val step_collect :
+  conf -> (call -> machine -> machine * outcome) -> machine ->
+  machine * outcome
+
+val step_collect_loop :
+  (call -> machine -> machine * outcome) -> nat -> machine ->
+  machine * outcome
+
+val step_collect_once :
+  conf -> prog -> (call -> machine -> machine * outcome) -> machine ->
+  machine * outcome
+
+val step_finalize_list :
+  conf -> prog -> (call -> machine -> machine * outcome) -> id0 list -> id0
+  list -> bool -> bool -> machine -> machine * outcome
+
+val step_drop_list :
+  conf -> (call -> machine -> machine * outcome) -> id0 list -> id0 list ->
+  bool -> machine -> machine * outcome
+
+val step_unbag :
+  (call -> machine -> machine * outcome) -> nat -> machine ->
+  machine * outcome
+
+val cmd_new :
+  conf -> prog -> (call -> machine -> machine * outcome) -> id0 option -> loc
+  -> nat -> machine -> machine * outcome
+
+val cmd_clone :
+  (call -> machine -> machine * outcome) -> id0 option -> loc -> loc ->
+  machine -> machine * outcome
+
+val cmd_drop :
+  (call -> machine -> machine * outcome) -> id0 option -> loc -> machine ->
+  machine * outcome
+
+val cmd_move :
+  (call -> machine -> machine * outcome) -> id0 option -> loc -> loc ->
+  machine -> machine * outcome
+
+val cmd_mark_alive : id0 option -> loc -> machine -> machine * outcome
+
+val cmd_collect :
+  (call -> machine -> machine * outcome) -> id0 option -> machine ->
+  machine * outcome
+
+val cmd_downgrade :
+  conf -> id0 option -> loc -> wloc -> machine -> machine * outcome
+
+val cmd_upgrade :
+  conf -> (call -> machine -> machine * outcome) -> id0 option -> wloc -> loc
+  -> machine -> machine * outcome
+
+val cmd_w_new : conf -> id0 option -> wloc -> machine -> machine * outcome
+
+val cmd_w_clone :
+  conf -> id0 option -> wloc -> wloc -> machine -> machine * outcome
+
+val cmd_w_drop : conf -> id0 option -> wloc -> machine -> machine * outcome
+
+val cmd_try_unwrap :
+  conf -> id0 option -> loc -> nat -> machine -> machine * outcome
+
+val cmd_drop_value :
+  (call -> machine -> machine * outcome) -> id0 option -> nat -> machine ->
+  machine * outcome
+
+val cmd_fin_again : conf -> id0 option -> loc -> machine -> machine * outcome
+
+val cmd_new_cyclic :
+  conf -> prog -> (call -> machine -> machine * outcome) -> id0 option -> loc
+  -> nat -> nat -> bool -> machine -> machine * outcome
+
+val cmd_register :
+  conf -> prog -> (call -> machine -> machine * outcome) -> id0 option ->
+  nodeloc -> nat -> nat -> machine -> machine * outcome
+
+val cmd_clean :
+  conf -> (call -> machine -> machine * outcome) -> id0 option -> nat ->
+  machine -> machine * outcome
+
+val cmd_c_drop : conf -> id0 option -> nat -> machine -> machine * outcome
+
+val cmd_bag : id0 option -> loc -> n -> machine -> machine * outcome
+
+val cmd_unbag :
+  (call -> machine -> machine * outcome) -> id0 option -> n -> machine ->
+  machine * outcome
+
+val cmd_borrow : id0 option -> nodeloc -> machine -> machine * outcome
+
+val cmd_unborrow : id0 option -> nodeloc -> machine -> machine * outcome
+
+val cmd_cfg_auto : conf -> id0 option -> bool -> machine -> machine * outcome
+
+val cmd_cfg_percent :
+  conf -> id0 option -> n -> n -> machine -> machine * outcome
+
+val cmd_cfg_buffered : conf -> id0 option -> n -> machine -> machine * outcome
+
+val cmd_arm : id0 option -> cbkind -> n -> machine -> machine * outcome
+
+val cmd_panic : id0 option -> machine -> machine * outcome
+
+val cmd_obs : id0 option -> loc -> machine -> machine * outcome
+
+val cmd_w_obs : conf -> id0 option -> wloc -> machine -> machine * outcome
+
+val cmd_s_obs : conf -> id0 option -> machine -> machine * outcome
+
+val step_cmd :
+  conf -> prog -> (call -> machine -> machine * outcome) -> id0 option -> cmd
+  -> machine -> machine * outcome
+
+val step :
+  conf -> prog -> (call -> machine -> machine * outcome) -> call -> machine
+  -> machine * outcome
+
 val run : conf -> prog -> nat -> call -> machine -> machine * outcome
 
 val exec_top : conf -> prog -> nat -> cmd -> machine -> machine
